@@ -167,7 +167,7 @@ class Expression:
     }
 
     unary_operators: ClassVar[dict[str, Callable[[int], int]]] = {
-        "u": lambda a: -a,
+        "-u": lambda a: -a,
         "~": lambda a: ~a,
     }
 
@@ -182,7 +182,7 @@ class Expression:
         "*": 5,
         "/": 5,
         "%": 5,
-        "u": 6,
+        "-u": 6,
         "~": 6,
         "sizeof": 6,
     }
@@ -233,13 +233,14 @@ class Expression:
         tmp_expression = self.tokens
 
         # Unary minus tokens; we change the semantic of '-' depending on the previous token
+        # The marker for unary minus is not a valid identifier, so it can't collide with a field or constant name
         for i in range(len(self.tokens)):
             if self.tokens[i] == "-":
                 if i == 0:
-                    self.tokens[i] = "u"
+                    self.tokens[i] = "-u"
                     continue
-                if self.tokens[i - 1] in operators or self.tokens[i - 1] == "u" or self.tokens[i - 1] == "(":
-                    self.tokens[i] = "u"
+                if self.tokens[i - 1] in operators or self.tokens[i - 1] == "-u" or self.tokens[i - 1] == "(":
+                    self.tokens[i] = "-u"
                     continue
 
         i = 0
